@@ -705,6 +705,35 @@ def row_store_array_other_dtype_must_stay(rows):
         out[i] = np.array([r[0], r[0] / 3], dtype=np.float16)
     return out.tolist()
 
+def extend_generator(rows):
+    out = []
+    for r in rows:
+        out.extend((a, b) for a, b in r if b is not None)
+    return out
+
+def extend_generator_target_read_later_must_stay(rows):
+    a = "kept"
+    out = []
+    out.extend(a for a in rows)
+    return (out, a)
+
+def appended_temporary(futs):
+    got, sizes = [], []
+    for i, f in enumerate(futs, start=1):
+        r = f()
+        got.append(r)
+        sizes.append(len(r))
+    return (got, sizes)
+
+def appended_temporary_list_touched_must_stay(futs):
+    got = []
+    for f in futs:
+        r = f()
+        got.append(r)
+        got.append(None)
+        last = r
+    return got
+
 def takes_three(a, b, c=3):
     return (a, b, c)
 
@@ -993,6 +1022,8 @@ ARGS = {
     "partial_jobs": [("D", [1, 2])], "partial_job_selected": [("D", [1], True), ("D", [1, 2], False)], "partial_rebound_arg_must_stay": [("D", [1])],
     "partial_escapes_must_stay": [("D", [1])],
     "row_store_array_literal": [([(1, 2), (7, 4)],)], "row_store_array_other_dtype_must_stay": [([(1, 2), (7, 4)],)],
+    "extend_generator": [([[(1, 2), (3, None)], [(4, 5)]],)], "extend_generator_target_read_later_must_stay": [([1, 2],)],
+    "appended_temporary": [([lambda: [1], lambda: [1, 2]],)], "appended_temporary_list_touched_must_stay": [([lambda: 1],)],
     "keys_loop": [({"b": [1, 2], "a": [3]},), ({},)], "keys_loop_keys_call": [({"b": [1, 2], "a": [3]},), ({},)],
     "keys_loop_body_stores_must_stay": [({"b": [1, 2], "a": [3]},)], "keys_loop_other_key_must_stay": [({"b": [1], "a": [3]}, "a")],
     "keys_loop_rebinds_key_must_stay": [({"b": [1], "a": [3]},)],
